@@ -10,6 +10,7 @@ import (
 
 	"go.mongodb.org/mongo-driver/bson"
 	"go.mongodb.org/mongo-driver/bson/primitive"
+	"go.mongodb.org/mongo-driver/mongo"
 	"go.mongodb.org/mongo-driver/mongo/options"
 
 	"github.com/256dpi/lungo"
@@ -96,7 +97,7 @@ func (m *apiRunner) step(c *apiCall) apiStep {
 	m.hist = append(m.hist, st.req)
 
 	viol := func(prop, what, witness, detail string) {
-		st.viols = append(st.viols, run.Violation{Property: prop, What: what, Witness: witness, Req: m.histReq(), Detail: clip(detail, 600)})
+		st.viols = append(st.viols, run.Violation{Property: prop, What: what, Witness: witness, Req: m.histReq(), Detail: clip(detail, 1500)})
 	}
 	safely := func(name string, f func()) {
 		defer func() {
@@ -119,12 +120,12 @@ func (m *apiRunner) step(c *apiCall) apiStep {
 
 	// C02: a failed call leaves the dump (documents, indexes, oplog) byte-identical
 	if wholeError(reply) && postDump != preDump {
-		viol("C02", "a call that reported an error changed the database", "error-changed-state:"+c.M, "reply "+reply+"\nbefore "+preDump+"\nafter  "+postDump)
+		viol("C02", "a call that reported an error changed the database", "error-changed-state:"+c.M, "reply "+reply+" before | after: "+dumpDiff(preDump, postDump))
 	}
 	if (c.M == "insertMany" || c.M == "bulkWrite") && strings.HasPrefix(reply, `{"ok"`) {
 		safely("batch", func() {
 			if want, ok := batchOracle(pre, c); ok && canonGenOids(want) != canonGenOids(postDump) {
-				viol("C02", "a batch did not apply exactly its individually valid items", "batch-partial:"+c.M, "itemwise "+want+"\nbatch    "+postDump)
+				viol("C02", "a batch did not apply exactly its individually valid items", "batch-partial:"+c.M, "itemwise | batch: "+dumpDiff(canonGenOids(want), canonGenOids(postDump)))
 			}
 		})
 	}
@@ -154,7 +155,7 @@ func (m *apiRunner) step(c *apiCall) apiStep {
 	safely("oplog", func() { m.oplogMonitors(c, reply, pre, post, preLog, postLog, events, viol) })
 
 	// C13: find window
-	if c.M == "find" && strings.HasPrefix(reply, `{"ok"`) {
+	if (c.M == "find" || c.M == "findOne" || c.M == "count") && strings.HasPrefix(reply, `{"ok"`) {
 		safely("window", func() {
 			if detail := m.findWindow(c, post); detail != "" {
 				viol("C13", "Find returned a different window than filter → stable sort → skip → limit", "find-window", detail)
@@ -716,30 +717,71 @@ func sortDirs(s bson.D) ([]bool, bool) {
 	return rev, true
 }
 
-// findWindow recomputes the ids of a Find from Documents.List and compares them with an
-// unprojected Find through the driver.
+// findWindow recomputes the ids of a Find / FindOne / CountDocuments window from
+// Documents.List and compares them with an unprojected call through the driver.
 func (m *apiRunner) findWindow(c *apiCall, cat *lungo.Catalog) string {
-	o := options.Find()
-	if c.HasSort {
-		o.SetSort(c.Sort)
-	}
-	if c.HasSkip {
-		o.SetSkip(c.Skip)
-	}
+	ctx := context.Background()
+	coll := m.env.client.Database(c.DB).Collection(c.Coll)
+	limit := int64(0)
 	if c.HasLimit {
-		o.SetLimit(c.Limit)
+		limit = c.Limit
 	}
-	csr, err := m.env.client.Database(c.DB).Collection(c.Coll).Find(context.Background(), c.Q, o)
-	if err != nil {
-		return ""
-	}
+	hasSort := c.HasSort
 	var got []bson.D
-	if err := csr.All(context.Background(), &got); err != nil {
-		return ""
+	gotN := int64(-1)
+	switch c.M {
+	case "find":
+		o := options.Find()
+		if c.HasSort {
+			o.SetSort(c.Sort)
+		}
+		if c.HasSkip {
+			o.SetSkip(c.Skip)
+		}
+		if c.HasLimit {
+			o.SetLimit(c.Limit)
+		}
+		csr, err := coll.Find(ctx, c.Q, o)
+		if err != nil {
+			return ""
+		}
+		if err := csr.All(ctx, &got); err != nil {
+			return ""
+		}
+	case "findOne":
+		limit = 1
+		o := options.FindOne()
+		if c.HasSort {
+			o.SetSort(c.Sort)
+		}
+		if c.HasSkip {
+			o.SetSkip(c.Skip)
+		}
+		var d bson.D
+		err := coll.FindOne(ctx, c.Q, o).Decode(&d)
+		if err == nil {
+			got = append(got, d)
+		} else if err != mongo.ErrNoDocuments {
+			return ""
+		}
+	default: // count
+		hasSort = false
+		o := options.Count()
+		if c.HasSkip {
+			o.SetSkip(c.Skip)
+		}
+		if c.HasLimit {
+			o.SetLimit(c.Limit)
+		}
+		n, err := coll.CountDocuments(ctx, c.Q, o)
+		if err != nil {
+			return ""
+		}
+		gotN = n
 	}
 	ns := cat.Namespaces[lungo.Handle{c.DB, c.Coll}]
 	if ns == nil {
-		if len(got) > 0 {
+		if len(got) > 0 || gotN > 0 {
 			return "documents from a missing namespace"
 		}
 		return "" // Transaction.Find answers before looking at sort and skip
@@ -755,7 +797,7 @@ func (m *apiRunner) findWindow(c *apiCall, cat *lungo.Catalog) string {
 			sel = append(sel, d)
 		}
 	}
-	if c.HasSort && len(c.Sort) > 0 {
+	if hasSort && len(c.Sort) > 0 {
 		rev, ok := sortDirs(c.Sort)
 		if !ok {
 			return "Find accepted a malformed sort " + vj.Enc(c.Sort)
@@ -785,8 +827,14 @@ func (m *apiRunner) findWindow(c *apiCall, cat *lungo.Catalog) string {
 			sel = sel[c.Skip:]
 		}
 	}
-	if c.HasLimit && c.Limit > 0 && int(c.Limit) < len(sel) {
-		sel = sel[:c.Limit]
+	if limit > 0 && int(limit) < len(sel) {
+		sel = sel[:limit]
+	}
+	if gotN >= 0 {
+		if int64(len(sel)) != gotN {
+			return fmt.Sprintf("count: want %d got %d", len(sel), gotN)
+		}
+		return ""
 	}
 	var want, have []string
 	for _, d := range sel {
